@@ -97,4 +97,44 @@ theorem C09_unit_direction {F : Type} [Field F] [LinearOrder F] [IsStrictOrdered
   field_simp
   nlinarith [hsq']
 
+/-- **C09** the Cartesian section is parametrised by distance -/
+theorem C09_section_by_distance {F : Type} [Field F] [LinearOrder F] [IsStrictOrderedRing F] (T : Transc F)
+    (hsqrt : ∀ x : F, 0 < x → T.sqrt x * T.sqrt x = x ∧ 0 < T.sqrt x) (c0 c1 : P2 F) (hne : c0.x ≠ c1.x ∨ c0.y ≠ c1.y) (x : F) :
+    let n := T.sqrt ((c0.x - c1.x) * (c0.x - c1.x) + (c0.y - c1.y) * (c0.y - c1.y))
+    let u := @surfaceCoordConversions F (fieldScalar T) c0 c1
+    (x * u.x) * (x * u.x) + (x * u.y) * (x * u.y) = x * x ∧
+    (c0.x + n * u.x = c1.x ∧ c0.y + n * u.y = c1.y) ∧
+    (c0.x + 0 * u.x = c0.x ∧ c0.y + 0 * u.y = c0.y) := by
+  intro n u
+  obtain ⟨hx, hy, h1⟩ := C09_unit_direction T hsqrt c0 c1 hne
+  have hpos : 0 < (c0.x - c1.x) * (c0.x - c1.x) + (c0.y - c1.y) * (c0.y - c1.y) := by
+    rcases hne with h | h
+    · have : 0 < (c0.x - c1.x) * (c0.x - c1.x) := mul_self_pos.mpr (sub_ne_zero.mpr h)
+      nlinarith [mul_self_nonneg (c0.y - c1.y)]
+    · have : 0 < (c0.y - c1.y) * (c0.y - c1.y) := mul_self_pos.mpr (sub_ne_zero.mpr h)
+      nlinarith [mul_self_nonneg (c0.x - c1.x)]
+  have hn0 : n ≠ 0 := ne_of_gt (hsqrt _ hpos).2
+  refine ⟨?_, ⟨?_, ?_⟩, by simp⟩
+  · have : (x * u.x) * (x * u.x) + (x * u.y) * (x * u.y) = x * x * (u.x * u.x + u.y * u.y) := by ring
+    rw [this, h1, mul_one]
+  · have hx' : u.x = (c1.x - c0.x) / n := hx
+    rw [hx']; field_simp; ring
+  · have hy' : u.y = (c1.y - c0.y) / n := hy
+    rw [hy']; field_simp; ring
+
+/-- **C09** the in-section velocity component never exceeds the horizontal speed (Cauchy-Schwarz with the unit direction) -/
+theorem C09_projection_bounded {F : Type} [Field F] [LinearOrder F] [IsStrictOrderedRing F] (T : Transc F)
+    (hsqrt : ∀ x : F, 0 < x → T.sqrt x * T.sqrt x = x ∧ 0 < T.sqrt x) (c0 c1 : P2 F) (hne : c0.x ≠ c1.x ∨ c0.y ≠ c1.y) (vx vy : F) :
+    let u := @surfaceCoordConversions F (fieldScalar T) c0 c1
+    (u.x * vx + u.y * vy) * (u.x * vx + u.y * vy) ≤ vx * vx + vy * vy ∧
+    (u.x * (u.x * vx + u.y * vy) - vx) * u.x + (u.y * (u.x * vx + u.y * vy) - vy) * u.y = 0 := by
+  intro u
+  obtain ⟨-, -, h1⟩ := C09_unit_direction T hsqrt c0 c1 hne
+  have h1' : u.x * u.x + u.y * u.y = 1 := h1
+  constructor
+  · nlinarith [mul_self_nonneg (u.x * vy - u.y * vx), h1']
+  · have : (u.x * (u.x * vx + u.y * vy) - vx) * u.x + (u.y * (u.x * vx + u.y * vy) - vy) * u.y
+        = (u.x * vx + u.y * vy) * (u.x * u.x + u.y * u.y - 1) := by ring
+    rw [this, h1']; ring
+
 end Gwb
